@@ -56,7 +56,7 @@ def scripts_for(tier, rng):
                         steps.append(dict(at=base + c + 1000, ev="INT"))
                         out.append(mk("b%05d" % k, mode, how, postpone, 50, 30, 0, None, [kd] * 6, steps, "grid"))
                         k += 1
-    n = 500 if tier == "quick" else 6000
+    n = 500 if tier == "quick" else 20000
     for _ in range(n):
         mode = rng.choice(modes)
         steps, t = [], 0
